@@ -20,7 +20,13 @@ every round the harness asks the kernel (FIONREAD, independent of the server's o
 bytes are queued on each server-side socket; a round in which the server closes such a socket on its
 own initiative (no `close`/injected hang-up for it earlier, no fatal `send` in that round) without
 calling `recv()` at all, or with fewer bytes received than were queued, has lost input that the
-kernel had delivered: `read-loss(no-recv-before-close,round)` / `read-loss(unread-left-at-close,round)`.
+kernel had delivered: `read-loss(no-recv-before-close,round)` / `read-loss(unread-left-at-close,round)`;
+plus the termination clause: a connection that was announced with `connect` and whose peer has closed or
+reset its socket must have got its `disconnect` once the server has been given rounds until nothing changes
+any more (two consecutive rounds with the same readiness, the same socket calls with the same results, no
+events and the same tables; the harness appends such rounds itself, bounded) - otherwise
+`no-disconnect(after-peer-close,<pending-server-close|output-pending|idle>)`.  Connections whose peer is
+still open (half closed, not reading) may stay pending and are not judged.
 Clients: a real `TCPClient` against a plain listening socket; `connected`/`disconnected` events per
 op vs. CV.Conn.Client, and CV.Conn.Client.alternates on the implementation's events.
 """
@@ -289,8 +295,9 @@ def execute(ops, kind, family):
     groups = []
     stats = {'late_write': 0, 'late_close': 0, 'exc': [], 'partial': 0, 'accepts': 0, 'gone': 0, 'disc': 0,
              'reads': 0, 'e2e': [], 'reuse': 0, 'eof': set(), 'unknown_ev': 0, 'unread_hangup': [],
-             'unread_close_judged': 0}
+             'unread_close_judged': 0, 'epilogue': 0, 'term': 'none'}
     disconnected = set()
+    connected = set()    # sockets announced with `connect`
     asked = set()        # sockets the server side was told to close / that got an injected hang-up
     errlog = []
 
@@ -304,6 +311,9 @@ def execute(ops, kind, family):
             if e[0] == '?':
                 stats['unknown_ev'] += 1
         main = [e for e in log if e[0] != '?' and e[1] not in new]
+        for e in log:
+            if e[0] == 'c':
+                connected.add(e[1])
         for e in main:
             if e[0] == 'd':
                 disconnected.add(e[1])
@@ -362,23 +372,42 @@ def execute(ops, kind, family):
                 stats['e2e'].append((o, 'read-loss(unread-left-at-close,round)', nread, n))
 
     wr_before = ()
+    last_round = [None]  # what the last op showed if it was a round: (readiness, log, accepts, tables)
+
+    def do_round():
+        """one zero-timeout poll round; -> True iff it repeated the previous round exactly (nothing moves any more)"""
+        nonlocal wr_before
+        ready = rig.probe()
+        pend = rig.pending()
+        wr_before = [x for x in rig.p._write if isinstance(x, socket.socket)]
+        rig.p._generate_events(GE())
+        settle(rig.m)
+        nacc = len(rig.accepted)
+
+        def lines_for(main, ready=ready):
+            rs = [f'r:{e[1]}:{e[2]}' for e in main if e[0] == 'R']
+            ss = [f's:{e[1]}:{e[3]}' for e in main if e[0] == 'S']
+            return [f"po {ready} | {' '.join(rs)} | {' '.join(ss)}"]
+        main = finish(lines_for)
+        unread_clause(ready, pend, main)
+        now = (ready, sorted(tok(e) for e in main), nacc, groups[-1][1]['tab'])
+        same = now == last_round[0] and nacc == 0 and not any(e[0] in 'crde' for e in main)
+        last_round[0] = now
+        return same
+
+    def owed():
+        """connections that were announced, whose peer has closed its socket, and that have no disconnect yet"""
+        return [i for i, c in sorted(rig.peers.items())
+                if c.fileno() < 0 and i in rig.socks and i in connected and i not in disconnected]
+
     try:
         for idx, op in enumerate(ops):
             name = op[0]
             try:
                 if name == 'poll':
-                    ready = rig.probe()
-                    pend = rig.pending()
-                    wr_before = [x for x in rig.p._write if isinstance(x, socket.socket)]
-                    rig.p._generate_events(GE())
-                    settle(rig.m)
-
-                    def lines_for(main, ready=ready):
-                        rs = [f'r:{e[1]}:{e[2]}' for e in main if e[0] == 'R']
-                        ss = [f's:{e[1]}:{e[3]}' for e in main if e[0] == 'S']
-                        return [f"po {ready} | {' '.join(rs)} | {' '.join(ss)}"]
-                    unread_clause(ready, pend, finish(lines_for))
+                    do_round()
                     continue
+                last_round[0] = None
                 i = op[1]
                 if name == 'conn':
                     if i in rig.peers or len(rig.peers) >= MAXCONN:
@@ -417,9 +446,24 @@ def execute(ops, kind, family):
                         c.setsockopt(socket.SOL_SOCKET, socket.SO_LINGER, struct.pack('ii', 1, 0))
                         c.close()
                     elif name == 'drain':
+                        # ['drain', i]: what is there now; ['drain', i, n]: at most n bytes;
+                        # ['drain', i, 'all']: until nothing more arrives (the server side kernel pushes on)
+                        left = op[2] if len(op) > 2 and isinstance(op[2], int) else None
                         try:
-                            while c.recv(1 << 16):
-                                pass
+                            while left is None or left > 0:
+                                try:
+                                    d = c.recv(1 << 16 if left is None else min(left, 1 << 16))
+                                except OSError as e:
+                                    if e.args[0] in AGAIN_RECV and len(op) > 2 and op[2] == 'all':
+                                        pp = select.poll()
+                                        pp.register(c.fileno(), select.POLLIN)
+                                        if pp.poll(8):
+                                            continue
+                                    raise
+                                if not d:
+                                    break
+                                if left is not None:
+                                    left -= len(d)
                         except OSError:
                             pass
                     s = rig.socks.get(i)
@@ -458,6 +502,26 @@ def execute(ops, kind, family):
             except Exception as e:   # the stepped loop must never raise
                 stats['exc'].append((idx, f'{type(e).__name__}: {e}'))
                 break
+        # termination: rounds until every connection whose peer is gone got its disconnect, or nothing moves any more
+        if not stats['exc']:
+            try:
+                steady = False
+                while owed() and not steady and stats['epilogue'] < 12:
+                    steady = do_round()
+                    stats['epilogue'] += 1
+                if owed():
+                    stats['term'] = 'judged-missing' if steady else 'not-quiescent'
+                    tab = dict(t.split('=') for t in groups[-1][1]['tab'][2:].split(',')) if steady else {}
+                    for o in (owed() if steady else []):
+                        fl = int(tab.get(str(o), 0))
+                        state = ('pending-server-close' if fl & F_CLOSEQ else 'output-pending' if fl & F_BUFFERS else 'idle')
+                        stats['e2e'].append((o, f'no-disconnect(after-peer-close,{state})', fl, stats['epilogue']))
+                elif any(c.fileno() < 0 and i in connected for i, c in rig.peers.items()):
+                    stats['term'] = 'judged-ok'
+            except Infra:
+                raise
+            except Exception as e:
+                stats['exc'].append((len(ops), f'{type(e).__name__}: {e}'))
         # end-to-end: what the observers read is a prefix of what the peer sent; all of it after a clean EOF
         reads = {}
         for _lines, impl, _s in groups:
@@ -610,6 +674,14 @@ def evaluate(ctx, cases, do_shrink=True):
             ops = shrink(ctx, c, sig) if do_shrink and fresh else c['ops']
             detail = f": {st['exc'][0][1]}" if sig.startswith('loop-raised') else ''
             for o, k, a, b in st['e2e']:
+                if k == sig and sig.startswith('no-disconnect('):
+                    names = [n for f, n in ((F_CLIENTS, 'server._clients'), (F_BUFFERS, 'server._buffers'),
+                                            (F_CLOSEQ, 'server._closeq'), (F_READ, 'poller._read'), (F_WRITE, 'poller._write'),
+                                            (F_TARGETS, 'poller._targets'), (F_MAP, 'poller._map')) if a & f]
+                    detail = (f": socket {o} was announced with connect and its peer has closed, but after rounds until nothing "
+                              f"changed any more ({b} appended) no disconnect was fired for it; still mentioned by "
+                              f"{', '.join(names) or 'no table'}")
+                    break
                 if k == sig and sig.startswith('read-loss('):
                     detail = (f": the kernel held {b} unread byte(s) for socket {o} before the round; the server closed the "
                               f"socket in that round having received {a} of them through recv()")
@@ -630,6 +702,8 @@ def evaluate(ctx, cases, do_shrink=True):
         for k in st['unread_hangup']:
             ctx.count('rounds_with_unread_input_at_hangup', f"{c['kind']}/{c['family']}:{k}")
         ctx.count('unread_input_close_judged', 'yes' if st['unread_close_judged'] else 'no')
+        ctx.count('termination_after_peer_close', st['term'])
+        ctx.count('rounds_appended_until_quiescence', st['epilogue'])
         for _l, impl, _s in groups:
             for t in impl['ev']:
                 ctx.count('events', t[0])
@@ -744,6 +818,44 @@ def abort_histories():
                    + P(4) + [['send', 4, 5]] + P() + [['write', 4, 3]] + P() + [['pclose', 4]] + P(2))
         res.append([['conn', 1], ['conn', 2], ['conn', 3]] + P(3) + [['write', 2, 10], ['write', 3, 400000]] + P()
                    + [['send', 3, k], ['rst', 3], ['send', 1, k], ['send', 2, k], ['rst', 2], ['rst', 1]] + P(5))
+    return res
+
+
+def stall_histories():
+    """the peer stops reading, the server writes a payload of which the kernel takes only a part, the server asks
+    for the connection to be closed (after the partial send, or - control - before the write was attempted), the
+    peer then reads everything / a part / nothing and closes or resets; 1 and 2 connections"""
+    res = []
+
+    def one(i, size, pre, close_first, rd, end):
+        h = [['send', i, 5]] + P()
+        if pre:
+            h += [['write', i, 5]] + P() + [['write', i, 10]]
+        h += [['write', i, size]]
+        h += ([['close', i]] + P(2)) if close_first else (P(2) + [['close', i]] + P())
+        h += {'all': [['drain', i, 'all']], 'part': [['drain', i, 3000]], 'none': []}[rd]
+        return h + [[end, i]] + P(3)
+
+    for size in (20000, 70000, 400000):
+        for pre in (False, True):
+            for close_first in (False, True):
+                res.append([['conn', 1]] + P() + one(1, size, pre, close_first, 'all', 'pclose'))
+    for close_first in (False, True):
+        for rd, end in (('all', 'rst'), ('part', 'pclose'), ('part', 'rst'), ('none', 'pclose'), ('none', 'rst')):
+            res.append([['conn', 1]] + P() + one(1, 70000, False, close_first, rd, end))
+    # the peer reads on while the close is pending, in steps, and only then closes
+    res.append([['conn', 1]] + P() + [['write', 1, 30000]] + P(2) + [['close', 1]] + P()
+               + ([['drain', 1, 'all']] + P(2)) * 3 + [['pclose', 1]] + P(3))
+    # two connections: both stalled; one stalled next to an ordinary dialogue
+    for size in (20000, 70000):
+        a = one(1, size, False, False, 'all', 'pclose')
+        b = one(2, size, True, False, 'all', 'pclose')
+        mix = [x for pair in zip(a, b) for x in pair] + a[len(b):] + b[len(a):]
+        res.append([['conn', 1], ['conn', 2]] + P(2) + mix)
+        res.append([['conn', 1], ['conn', 2]] + P(2) + one(1, size, False, False, 'all', 'pclose')
+                   + [['send', 2, 3]] + P() + [['write', 2, 4]] + P() + [['pclose', 2]] + P(2))
+        res.append([['conn', 1], ['conn', 2]] + P(2) + one(2, size, False, True, 'all', 'pclose')
+                   + one(1, size, False, False, 'part', 'rst'))
     return res
 
 
@@ -1001,7 +1113,7 @@ def make_cases(ctx):
         for k in KINDS:
             cases.append({'ops': [list(o) for o in d], 'kind': k, 'family': 'tcp'})
         cases.append({'ops': [list(o) for o in d], 'kind': rng.choice(KINDS), 'family': 'unix'})
-    for d in abort_histories():
+    for d in abort_histories() + stall_histories():
         for k in KINDS:
             cases.append({'ops': [list(o) for o in d], 'kind': k, 'family': 'tcp'})
             cases.append({'ops': [list(o) for o in d], 'kind': k, 'family': 'unix'})
@@ -1025,6 +1137,10 @@ def run(ctx):
                 'fatal send with pending close, many connections with fd reuse) x 3 pollers + abort histories (peer sends '
                 '1/300/5000 bytes and resets / closes / half-closes with no round in between; alone, after polled traffic, '
                 'with a server-side write queued or stalled, several connections in one round) x 3 pollers x tcp/unix '
+                '+ stall histories (peer stops reading, server write of 20000/70000/400000 bytes partially sent, server close '
+                'requested after / before it, peer then reads all / part / nothing and closes or resets; 1 and 2 connections) '
+                'x 3 pollers x tcp/unix; every history is continued with rounds until each announced connection whose peer '
+                'has closed got its disconnect or nothing changes any more '
                 '+ every op sequence of length <= 2 '
                 '(quick) / 3 (thorough) over one connection + random histories (1-5 connections, 20-60 actions) x 3 pollers; '
                 'client cases: a real TCPClient against a plain listener; non-trivial = at least one connection accepted and '
